@@ -270,6 +270,18 @@ def run_case(sh, s, tier, d, case, only=None, prebuilt=None):
                         sh.count('gc_refusals_on_dangling_reference')
                         sh.case(None)
                         continue
+                    if gc and unchanged and isinstance(e, KeyError) and e.args and isinstance(e.args[0], bytes):
+                        # the same refusal when the reference to an object that does not exist at the pack time sits in a revision
+                        # that is not current at T but is re-activated by a later undo (the packer walks those too): the statement
+                        # does not promise that a pack succeeds, only what it may remove; nothing was removed
+                        try:
+                            absent = ref.loadBefore(e.args[0], p64(u64(T) + 1)) is None
+                        except POSKeyError:
+                            absent = True
+                        if absent:
+                            sh.count('gc_refusals_on_reference_to_an_object_absent_at_the_pack_time')
+                            sh.case(None)
+                            continue
                     sh.violation('c07:%s:pack-raises-%s%s' % (kind, type(e).__name__, '' if unchanged else '-and-state-changed'),
                                  dict(wit, exc=repr(e)[:200], gc=gc, dangling=dangling), c2)
                     sh.case(None)
